@@ -12,6 +12,7 @@
 From Coq Require Import String.
 From ZV Require Import Lib.Base Model.Web Proofs.Web Generated.WebPages Generated.WebSinks.
 From ZV Require Import Model.WebResp Proofs.WebResp Generated.WebRoutes.
+From ZV Require Import Model.WebJs Proofs.WebJs.
 Open Scope N_scope.
 
 (** (i-a) For every line match whose fragments are sorted, non-overlapping and inside the line — whatever lies in the
@@ -68,6 +69,16 @@ Proof.
   intros name p Hin. rewrite forallb_forall in H. apply esc_no_markup. exact (H _ Hin).
 Qed.
 Print Assumptions C36_pages_no_markup_partial.
+
+(** (ii-d) JS-string integrity (jsstr slots: `var x = "{{.}}"` in a script element, event handlers): a string literal
+    whose content is the escaped value ends exactly at the template's closing quote — for every value and both quote
+    characters — and contains no line terminator and no '<' (so neither "</script" nor "<!--"). [js_lit] is the
+    ECMAScript 2019 string-literal scanner of Model/WebJs.v (U+2028/9, which html/template escapes as well for older
+    engines, are ordinary characters there). *)
+Theorem C36_jsstr_literal_integrity : forall q, q = 34 \/ q = 39 ->
+  forall v rest, js_lit q (esc_jsstr v ++ q :: rest)%list = Some rest.
+Proof. exact jsstr_literal_integrity. Qed.
+Print Assumptions C36_jsstr_literal_integrity.
 
 (** (iii) sinks_are_plain (generated with go/types): nothing of type template.HTML/JS/URL/CSS/HTMLAttr/… and no
     interface value flows into an html/template execution or out of a template function; every data slot inside an
@@ -250,4 +261,11 @@ Example C36_nonvacuous_response_classes :
   sink_class page_names static_names
     {| rs_route := "/"; rs_func := "f"; rs_kind := KWrite (BTemplate ["?s.other"]); rs_hdrs := [] |} = RUnknown /\
   static_names = ["robots"]%string.
+Proof. vm_compute. repeat split; reflexivity. Qed.
+
+Example C36_nonvacuous_jsstr :
+  (* the escaped payload stays inside the literal; unescaped it ends the literal early / breaks it *)
+  js_lit 34 (esc_jsstr (str """;alert(1);//</script><script>") ++ 34 :: str ";")%list = Some (str ";") /\
+  js_lit 34 (str """;alert(1);//" ++ 34 :: str ";")%list = Some (str ";alert(1);//"";") /\
+  js_lit 39 (str "</script>" ++ 39 :: str ";")%list = None.
 Proof. vm_compute. repeat split; reflexivity. Qed.
